@@ -120,6 +120,8 @@ def extra_rules(opts):
         ex.append(("R18", list(opts["R18"])))
     for frm, to in opts.get("RX", []):
         ex.append(("RX", frm.split(), to.split()))
+    for frm, to in opts.get("RXO", []):
+        ex.append(("RXO", frm.split(), to.split()))
     return ex
 
 
